@@ -126,6 +126,7 @@ pub fn gen_general(profile: &str, seed: u64, monitors: &[&str], o: GenOpts) -> P
             } else {
                 None
             },
+            server_close_at_us: None,
         });
     }
     // the network MTU sometimes sits below the endpoints' maximum (forces MTU-probe loss)
@@ -376,6 +377,38 @@ fn amplification(seed: u64, index: u64, ex: &mut Extras) -> Params {
             if r.chance(1, 4) {
                 // client address changes in the middle of the handshake
                 p.net.rebinds.push((r.range(0, 4 * p.net.delay_us), 0));
+            }
+            match r.below(4) {
+                0 => {
+                    // the address changes after the handshake, and the server application
+                    // closes the connection while the new address is still being validated
+                    let t = r.range(300_000, 1_500_000) + 6 * p.net.delay_us;
+                    p.net.rebinds.push((t, 0));
+                    p.net.rebinds.sort();
+                    p.clients[0].server_close_at_us = Some(t + r.range(0, 3 * p.net.delay_us + 2_000));
+                    // keep the client talking in small packets around that time
+                    for s in p.clients[0].streams.iter_mut() {
+                        s.fwd.len = s.fwd.len.max(40_000);
+                        s.fwd.chunk_lo = 1;
+                        s.fwd.chunk_hi = 40;
+                        s.fwd.gap_every = 1;
+                        s.fwd.gap_us = p.net.delay_us / 2 + 500;
+                    }
+                }
+                1 => {
+                    // no pacing at the server (initial RTT estimate below the pacer's floor),
+                    // client first flights of uneven size, server flight left unanswered
+                    p.server.initial_rtt_ms = 1;
+                    for c in p.clients.iter_mut() {
+                        c.cfg.initial_mtu = *r.pick(&[1228u16, 1300, 1372, 1400, 1452]);
+                        c.cfg.max_mtu = c.cfg.max_mtu.max(c.cfg.initial_mtu);
+                    }
+                    p.net.phases.clear();
+                    let mut ph = Phase::clean(r.range(1_000_000, 4_000_000));
+                    ph.loss = [0.9, 0.0];
+                    p.net.phases.push(ph);
+                }
+                _ => {}
             }
         }
         _ => {
@@ -893,6 +926,7 @@ pub fn make(profile: &str, seed: u64, index: u64) -> (Params, Extras) {
                 server_streams: vec![],
                 close_code: Some(0),
                 abort_at_us: None,
+                server_close_at_us: None,
             });
             p.net = gen_faulty_net(&mut r, 1);
             p
